@@ -102,7 +102,7 @@ class _Stop(Exception):
 
 class Analyzer(object):
     def __init__(self, model, ci, fn, tracked, forced=None, skip_self=True,
-                 max_depth=3, alias_mode=False):
+                 max_depth=3, alias_mode=False, set_zero_kills=True):
         """``tracked``: {param name: cell name}.  ``forced``: {condition
         text: bool}.  ``alias_mode``: x and out are one object (``x is out``
         is True)."""
@@ -113,6 +113,9 @@ class Analyzer(object):
         self.forced = dict(forced or {})
         self.max_depth = max_depth
         self.alias_mode = alias_mode
+        # whether E.set_zero() overwrites without reading the old content
+        # (derived from _lincomb_impl by C01, not assumed)
+        self.set_zero_kills = set_zero_kills
 
     def _advanced_index(self, sl):
         """Is the subscript expression NumPy *advanced* indexing (result is
@@ -362,8 +365,12 @@ class Analyzer(object):
             if isinstance(f, ast.Attribute) and f.attr in FULL_WRITE_METHODS:
                 nm, partial = base(f.value)
                 if nm and cell(nm):
-                    mark_skip(f.value, skip)
-                    wr.append((cell(nm), 'W', partial))
+                    if f.attr == 'set_zero' and not A.set_zero_kills:
+                        # 0*x + 0*x keeps NaN/inf: a read-modify-write
+                        wr.append((cell(nm), 'RMW', partial))
+                    else:
+                        mark_skip(f.value, skip)
+                        wr.append((cell(nm), 'W', partial))
                     handled.add(id(f.value))
                 else:
                     # space.lincomb(a, x1, b, x2, out)
